@@ -151,11 +151,10 @@ class FloatValidatorBase(FieldValidator[_P, float], Generic[_P, _C], metaclass=A
             ValueError: Value cannot be precisely represented with this datatype
         """
 
-        # Note: This may not be worth it since this is a rare overflow case.
+        # Every element is checked: max()/min() cannot be used because any comparison
+        # with NaN is false, which let out-of-range values next to a NaN through.
         try:
-            if math.isinf(self._ctype(max(value)).value) or math.isinf(
-                self._ctype(min(value)).value
-            ):
+            if any(math.isinf(self._ctype(v).value) for v in value):
                 raise ValueError(
                     f"{value} contains value(s) that can not be represented as a {type(self).__name__}"
                 )
